@@ -189,5 +189,7 @@ def run(ctx, rep):
     rule_state_type(rep, crate)
     from props import c19
     c19.rule_gate(rep, crate)
+    from props import cg
+    cg.cg_controls(rep, ctx, [('M-C08a', rule_no_conflict_dropped)])
     rep.trusted += ['rustc nightly MIR', 'engines/mirfacts', 'regex-automata: match_pattern enumerates all patterns matching in a state (MatchKind::All)']
     rep.assumptions += ['detection coincides with language intersection only modulo C01 (not claimed)']
